@@ -154,12 +154,33 @@ func (conn *Conn) Timestamp() time.Time {
 
 // SetSpanContext sets the span context to the connection.
 func (conn *Conn) SetSpanContext(span tracer.Context) {
+	conn.stateMutex.Lock()
+	defer conn.stateMutex.Unlock()
 	conn.Context = span
 }
 
 // SpanContext returns the span context of the connection.
 func (conn *Conn) SpanContext() tracer.Context {
+	conn.stateMutex.RLock()
+	defer conn.stateMutex.RUnlock()
 	return conn.Context
+}
+
+// Span returns the current top tracer span of the span context.
+// The span context is replaced for every request by the connection's goroutine while the
+// connection is visible through the registry: the embedded field is read under the lock.
+func (conn *Conn) Span() tracer.Span {
+	return conn.SpanContext().Span()
+}
+
+// StartSpan starts a new child tracer span of the span context.
+func (conn *Conn) StartSpan(name string) bool {
+	return conn.SpanContext().StartSpan(name)
+}
+
+// FinishSpan ends the current top tracer span of the span context.
+func (conn *Conn) FinishSpan() bool {
+	return conn.SpanContext().FinishSpan()
 }
 
 // IsTLSConnection return true if the connection is enabled TLS.
